@@ -736,7 +736,7 @@ fn scenario(cx: &mut Ctx, r: &mut Report, idx: u64, rng: &mut Rng) {
         }
     }
     let delays: Vec<u64> = actors.iter().map(|_| if rng.chance(1, 3) { 0 } else { rng.below(20_000) }).collect();
-    let log_start = w.store.log_bytes().len();
+    let log_start = w.store.log_bytes_settled().len();
     let app = w.app.clone();
     let data = w.store.data.clone();
     let wsdir = w.store.ws.clone();
@@ -922,7 +922,7 @@ fn judge(
     r.count("mark_brackets", brackets);
 
     // ---- (3) thread oracle over the log written by this case
-    let bytes = cx.world.as_ref().map(|w| w.store.log_bytes()).unwrap_or_default();
+    let bytes = cx.world.as_ref().map(|w| w.store.log_bytes_settled()).unwrap_or_default();
     let frames = match truth::parse_log(&bytes[log_start.min(bytes.len())..]) {
         Ok(f) => f,
         Err(e) => {
